@@ -411,3 +411,112 @@ Example C08_history_removed :
   let s := xrun repaired p0 1000 1 [g0] hist_all in
   mentions (xs_st s) 2 [2%N] = false /\ listed (xs_st s) 2 = false.
 Proof. vm_compute. split; reflexivity. Qed.
+
+(* ================================================================== a removal while ANOTHER wallet is being restored
+   (Ledger/ImportRemoveProofs.v, Ledger/ImportRemoveExamples.v; the invariant [minv_r] and the histories [xwf_r] are
+   described in Properties/C07.v, last part)
+
+   The theorems above assume that no wallet is importing ([no_importing] in [StInv]).  The case left open: the
+   removal decides from the wallet database whether a transaction record may go ([removable]: no output pays, and
+   no input spends a RECORDED coin of, another keystore-known wallet) — while a wallet w that is being restored
+   has not recorded its part of a shared transaction T yet (cursor below T's block). *)
+Require Import MW.Ledger.Proofs MW.Ledger.RemoveProofs2 MW.Ledger.RemoveProofs4 MW.Ledger.ImportProofs2 MW.Ledger.ImportProofs3.
+Require Import MW.Ledger.ImportRemoveProofs MW.Ledger.ImportRemoveExamples.
+
+(* C08_round_keeps_other_wallets_records: ONE round of the removal of r (any cap, also the last), on ANY database
+   in which the rows of the wallets other than r — ready or importing, cursor anywhere — are keyed by the
+   keystore, name real outputs and carry real spent marks:
+   the other wallets' credit rows and spent marks are untouched; every transaction record one of these rows needs
+   (its creating transaction, its spending transaction) is still listed afterwards; block records only shrink.
+   So T keeps its record as soon as ONE recorded row of w needs it; if none does yet, T's record may be deleted —
+   the rescan lists it again ([import_tx]: add_ids) when it reaches T's block (C07_rescan_batch_during_removal). *)
+Theorem C08_round_keeps_other_wallets_records : forall fx, f_removable fx = true -> f_removable_debit fx = true ->
+  forall U, GU U -> forall cap n lookup st r,
+  (forall t tx0, lookup t = Some tx0 -> In tx0 (chain_txs U) /\ t_id tx0 = t) ->
+  keys_functional st ->
+  (forall c, In c (others r (credits (x_w st))) ->
+     key_owner st (c_sh c) = Some (c_wallet c) /\ credit_sound U c /\ spent_sound U c) ->
+  let st' := fst (remove_round fx cap n lookup st r) in
+  others r (credits (x_w st')) = others r (credits (x_w st)) /\
+  incl (credits (x_w st')) (credits (x_w st)) /\
+  synced (x_w st') = synced (x_w st) /\
+  (covered (x_brecs st) (others r (credits (x_w st))) -> covered (x_brecs st') (others r (credits (x_w st')))) /\
+  (forall h t, listed_at (x_brecs st') h t = true -> listed_at (x_brecs st) h t = true) /\
+  (forall br, In br (x_brecs st') -> exists br0, In br0 (x_brecs st) /\ br_h br0 = br_h br /\ br_bid br0 = br_bid br).
+Proof. exact round_keeps_others. Qed.
+Print Assumptions C08_round_keeps_other_wallets_records.
+
+(* a round while w is being restored: more rounds to come — the invariant stays; the LAST round — the database
+   satisfies [minv] as it is (w's part up to its cursor, everybody else over the whole chain, records covering
+   them) and nothing mentions r *)
+Theorem C08_round_during_import : forall p g U, GU U -> forall w r, w <> r ->
+  forall keysS fx, f_removable fx = true -> f_removable_debit fx = true ->
+  forall cap n lookup c st,
+  (forall t tx0, lookup t = Some tx0 -> In tx0 (chain_txs U) /\ t_id tx0 = t) ->
+  minv_r p g U w r keysS c st ->
+  let st' := fst (remove_round fx cap n lookup st r) in
+  (snd (remove_round fx cap n lookup st r) = false /\ minv_r p g U w r keysS c st') \/
+  (snd (remove_round fx cap n lookup st r) = true /\ minv p g U w keysS c st' /\
+   mentions st' r (sh_of_wallet st r) = false).
+Proof. exact rround_inv. Qed.
+Print Assumptions C08_round_during_import.
+
+(* C08_removal_during_import: as C07_import_during_removal with the two requests in the other order — ImportWallet
+   w first, then RemoveWallet r (accepted: r is ready; the removal of the IMPORTING wallet is refused,
+   C08_refused_while_importing) *)
+Theorem C08_removal_during_import : forall p g U,
+  (forall b1 b2, In b1 U -> In b2 U -> b_id b1 = b_id b2 -> b1 = b2) -> GU U ->
+  forall w r, w <> r -> forall keys0 B cap, 0 < B ->
+  forall passR pass sh shs c0 n0 all0 st0,
+  ninv g U n0 -> incl all0 (chain_txs U) ->
+  minv p g U w keys0 c0 st0 -> status_of st0 w = None -> (forall s, ownW w keys0 s = None) ->
+  NoDup (map fst keys0) ->
+  status_of st0 r = Some WReady -> lookupN (x_pass st0) r = Some passR -> memN r (x_p1 st0) = false ->
+  NoDup (sh :: shs) -> (forall s, In s (sh :: shs) -> lookupN keys0 s = None) ->
+  forall stB1 h,
+  import_start st0 w pass (sh :: shs) = Some stB1 ->
+  let s2 := {| xs_node := n0; xs_st := fst (remove_request stB1 r passR); xs_all := all0; xs_crashed := false |} in
+  xwf_r p g U w r B cap s2 h ->
+  let s := fold_left (xstep repaired p B cap) h s2 in
+  let st := xs_st s in
+  let keysS := filter (fun e : N * N => negb (snd e =? r)%N) keys0 ++ keys_of w (sh :: shs) in
+  xs_crashed s = false /\
+  (in_step g s -> status_of st w = Some WReady -> status_of st r = None ->
+     equals_live_all p st (xs_node s) /\ x_keys st = keysS) /\
+  (status_of st r = None -> mentions st r (sh_of_wallet st0 r) = false /\ listed st r = false) /\
+  (exists c, wf_chain c /\ synced (x_w st) = synced_of c /\
+     forall v, v <> w -> v <> r ->
+       proj v (credits (x_w st)) = proj v (credits (L p (lookupN keys0) c)) /\
+       xreport st v = spec_report p (lookupN keys0) c v) /\
+  (status_of st r <> None -> use_wallet st r = UUnready) /\
+  (status_of st w <> Some WReady -> status_of st w <> None -> use_wallet st w = UUnready).
+Proof. exact import_during_removal_B. Qed.
+Print Assumptions C08_removal_during_import.
+
+(* the shared-transaction case, closed (Ledger/ImportRemoveExamples.v: wallet 1 = r with script hashes 1 and 3, wallet 2 = w,
+   wallet 3 a bystander; T5 = r pays w with change, T6 = w pays r without change, T7 spends a coin of each):
+   EVERY interleaving of the removal steps (cap 1) with the rescan batches (one block per batch), both orders of the
+   two requests, also followed by / interleaved with a reorganisation: at the end w's and the bystander's reports,
+   credit rows with spent marks and staking rows are those of the run in which r never existed and w watched the
+   chain live; r is not listed, nothing mentions it; every credit's transaction and spender is listed. *)
+Example C08_shared_tx_remove_then_import : map (obs 1 1) (hists ordA []) = repeat (obs_ref 1 1 q_ref) 924.
+Proof. exact shared_tx_remove_then_import. Qed.
+Example C08_shared_tx_import_then_remove : map (obs 1 1) (hists ordB []) = repeat (obs_ref 1 1 q_ref) 924.
+Proof. exact shared_tx_import_then_remove. Qed.
+Example C08_shared_tx_then_reorg : map (obs 1 1) (hists ordA q_reorg2) = repeat (obs_ref 1 1 (q_ref ++ q_reorg2)) 924.
+Proof. exact shared_tx_then_reorg. Qed.
+Example C08_shared_tx_reorg_inside : forall n, n = length (all_mid q_reorg2 ordA 3) ->
+  map (obs 2 2) (all_mid q_reorg2 ordA 3) = repeat (obs_ref 2 2 (q_ref ++ q_reorg2)) n.
+Proof. exact shared_tx_reorg_inside. Qed.
+
+(* T6 = "w pays r" (transaction 6, height 3), wallet 1 = r, wallet 2 = w.  The whole removal while w's cursor is 0:
+   T6's record is deleted (no recorded row of another wallet needs it), T5 (pays w) keeps its record; the batches
+   that follow list T6 again and mark w's coin (1,1) spent by it.  One batch first (w's coin recorded): T6 is kept.
+   (first component: T5 listed at height 2; second: T6 listed at height 3; then the statuses of r and w, w's rows) *)
+Example C08_shared_tx_record_deleted_and_relisted :
+  listing (q_pre ++ ordB ++ q_rem 4) = (true, false, None, Some (WImporting 0), []) /\
+  listing (q_pre ++ ordB ++ q_rem 4 ++ q_imp 5)
+    = (true, true, None, Some WReady, [(1%N, 1%N, Some (6%N, 0%N, 3)); (5%N, 0%N, Some (7%N, 0%N, 4))]) /\
+  listing (q_pre ++ ordB ++ q_imp 1 ++ q_rem 4)
+    = (true, true, None, Some (WImporting 1), [(1%N, 1%N, None)]).
+Proof. exact shared_tx_record_deleted_and_relisted. Qed.
